@@ -318,7 +318,8 @@ void QXmppIncomingClient::handleStanza(const QDomElement &nodeRecv)
                 return;
             }
         } else if (auto response = Sasl2::Response::fromDom(nodeRecv)) {
-            if (!d->saslServer) {
+            // a SASL 2 response needs a SASL 2 <authenticate/> that is still in progress (not aborted, not a SASL 1 <auth/>)
+            if (!d->saslServer || !d->sasl2AuthRequest) {
                 warning(u"SASL response received, but no mechanism selected"_s);
                 sendData(serializeXml(Sasl2::Failure()));
                 disconnectFromHost();
@@ -342,6 +343,8 @@ void QXmppIncomingClient::handleStanza(const QDomElement &nodeRecv)
                 disconnectFromHost();
             }
         } else if (auto abort = Sasl2::Abort::fromDom(nodeRecv)) {
+            // the exchange is over: drop the mechanism state (and with it any outstanding password-checker reply)
+            d->saslServer.reset();
             d->sasl2AuthRequest.reset();
             sendData(serializeXml(Sasl2::Failure { Sasl::ErrorCondition::Aborted, {} }));
         }
